@@ -110,6 +110,10 @@ def run(ctx):
                    "address beat was never accepted -- and hand b / r to the master granted by the round-robin of that direction", min_sites=6)
     from .c08 import arbiter_grant_freeze
     arbiter_grant_freeze(ctx, "T8")
+    from ..share import lift
+    lift(ctx, "c08", [("L3", "AXI", "locks count master-side request/response handshakes")], "T9",
+         "the slave selection of the decoders is held until the response the watchdog may have to give is complete: the locks count "
+         "request handshakes against response handshakes, bursts up to their last beat (C08.L3 decides the same construct)", min_sites=2)
     ctx.rule("T3", "Timeout bodies: wait condition, forced termination with error data, RESPOND exits only on the response "
                    "handshake, error pulse, RESP_SLVERR = 0b10", min_sites=40)
     ctx.rule("T4", "WaitTimer: done = count == 0; decrement under wait & ~done; reload when not waiting; reset value t", min_sites=4)
